@@ -1,9 +1,12 @@
 //! rarena-mc: bounded exhaustive exploration of al8n/rarena (see /verif/DESIGN.md)
 mod crashguard;
+mod hb;
 mod hist;
 mod layouts;
 mod props_hist;
+mod props_sched;
 mod report;
+mod sched;
 mod subject;
 
 use report::Tier;
@@ -44,6 +47,7 @@ fn main() {
       let case = &v["case"];
       let code = match case["engine"].as_str() {
         Some("hist") => hist::replay(case),
+        Some("sched") => sched::replay(case),
         _ => {
           eprintln!("machinery: unknown engine in replay file");
           2
@@ -76,6 +80,7 @@ fn tier_of(args: &[String]) -> Tier {
 fn dispatch(id: &str, tier: Tier) -> i32 {
   match id {
     "C01" | "C03" | "C08" | "C10" | "C11" | "C20" => props_hist::check(id, tier),
+    "C02" | "C07" | "C12" | "C13" => props_sched::check(id, tier),
     _ => {
       eprintln!("machinery: no check for {id}");
       2
